@@ -1,9 +1,14 @@
 """Sidecar contracts for the GLUE functions between the library's computations and its observation points
 (observe_at of C06 / C14 / C16 / C19): data flow only.
 
-  rnapolis.adapter    extract_secondary_structure_from_external, process_external_tool_output, parse_external_output, main@adapter
-  rnapolis.annotator  extract_base_interactions, extract_secondary_structure, write_bpseq, handle_output_arguments@prefix,
-                      main@annotator
+Verify targets
+  rnapolis.adapter    extract_secondary_structure_from_external, parse_external_output, process_external_tool_output, main@adapter
+  rnapolis.annotator  extract_base_interactions, extract_secondary_structure, write_bpseq, write_json, add_common_output_arguments,
+                      handle_output_arguments@prefix (the body up to, not including, `if args.inter_stem_csv:`), main@annotator
+Not under contract: the rest of handle_output_arguments (two pandas exports: a dict display inside a comprehension, DataFrame
+item assignment / column selection / to_csv, try/except around dict.get) - it contains no print; annotator.write_csv (assumed).
+At call sites handle_output_arguments is therefore OPAQUE (contract hoa_call: it may print, write files and raise; ghost names for
+its arguments only): the mains are proved to hand it the right values, the prefix contract says what it does with them.
 
 Every function is executed symbolically on the real source.  What the library calls compute is NOT re-proved here (Mapping2D3D.bpseq /
 dot_bracket / extended_dot_bracket / all_dot_brackets are under contract in contracts/mapping*_c.py and common_all_c.py, the importers in
@@ -51,9 +56,11 @@ NS_FIELDS = dict(NS_COMMON, input="str", find_gaps="bool", external="str", tool=
 NS_BY_MODULE = {"rnapolis.annotator": set(NS_COMMON) | {"input", "find_gaps"}, "rnapolis.adapter": set(NS_FIELDS)}
 CLASSES = {
     "Structure3D": {"kind": "object", "fields": {"val": "int"}},
-    "IList": {"kind": "object", "fields": {"val": "int"}},
-    "ElemList": {"kind": "object", "fields": {"val": "int"}},
-    "IspList": {"kind": "object", "fields": {"val": "int"}},
+    # Python lists whose content the glue never looks at: list OBJECTS (boxed_list: truth value / == / iteration of such an object
+    # is refused or goes through `items`, never decided as for a plain object); `val` (ghost) = which content the list holds
+    "IList": {"kind": "object", "boxed_list": "items", "derived": ["val"], "fields": {"items": "list[int]", "val": "int"}},
+    "ElemList": {"kind": "object", "boxed_list": "items", "derived": ["val"], "fields": {"items": "list[int]", "val": "int"}},
+    "IspList": {"kind": "object", "boxed_list": "items", "derived": ["val"], "fields": {"items": "list[int]", "val": "int"}},
     "BpSeq": {"kind": "object", "fields": {"val": "int"}},
     "BaseInteractions": {"kind": "record", "fields": {"basePairs": IL, "stackings": IL, "baseRiboseInteractions": IL,
                                                       "basePhosphateInteractions": IL, "otherInteractions": IL}},
@@ -236,7 +243,12 @@ def ext_print(e, args, kw, node, st):
 def ext_open(e, args, kw, node, st):
     """open(path, 'w' | 'wb'): a new file object with an empty buffer; may fail with OSError.  (Bytes are modelled as text: the only
     bytes value is what orjson.dumps returns.)"""
-    if len(args) != 2 or kw or args[1] not in ("w", "wb") or not _is_str(args[0]):
+    if len(args) != 2 or kw or args[1] not in ("w", "wb"):
+        raise Unsupported("open(): only open(<str path>, 'w' | 'wb') is modelled")
+    if isinstance(args[0], VOpt):
+        e.may_raise(args[0].isnone, "TypeError", node)  # open(None, ..)
+        args = [args[0].val, args[1]]
+    if not _is_str(args[0]):
         raise Unsupported("open(): only open(<str path>, 'w' | 'wb') is modelled")
     e.may_raise(z3.Bool(uid("os_error")), "OSError", node)
     f = _alloc(e, st, "OutFile")
@@ -534,21 +546,54 @@ class process_external:
 
 
 # ------------------------------------------------------------------------------------------------ annotator: extract_secondary_structure
+class find_pairs_c:
+    """ASSUMED: annotator.find_pairs(structure, model) -> (base pairs, base-phosphate, base-ribose) list objects; ghost s / m: its arguments"""
+    params = {"structure": "Structure3D", "model": "opt[int]"}
+    defaults = {"model": None}
+    requires = []
+    returns = "tuple[IList,IList,IList]"
+    ghost_returns = {"s": "Structure3D", "m": "opt[int]"}
+    raises = LIB_ERRORS
+    modifies = []
+    ensures = ["s is structure", "m == model"]
+
+
+class find_stackings_c(find_pairs_c):
+    """ASSUMED: annotator.find_stackings(structure, model) -> the stackings list object; ghost s / m: its arguments"""
+    returns = "IList"
+
+
 class extract_base_interactions_c:
-    """ASSUMED: annotator.extract_base_interactions(structure, model) -> the interactions found (opaque); ghost s / m: its arguments"""
+    """annotator.extract_base_interactions(structure, model): find_pairs and find_stackings of exactly that structure and model, filed
+    as (pairs, stackings, base-ribose, base-phosphate, other = a new empty list); ghost s / m: its arguments"""
     params = {"tertiary_structure": "Structure3D", "model": "opt[int]"}
     defaults = {"model": None}
     requires = []
     returns = "rec[BaseInteractions]"
     ghost_returns = {"s": "Structure3D", "m": "opt[int]"}
+    ghost_exit = ["let s = tertiary_structure", "let m = model"]
     raises = LIB_ERRORS
     modifies = []
-    ensures = ["s is tertiary_structure", "m == model"]
+    ensures = ["s is tertiary_structure", "m == model",
+               "find_pairs_s is tertiary_structure and find_pairs_m == model and find_stackings_s is tertiary_structure and find_stackings_m == model",
+               "result.basePairs is find_pairs_result[0] and result.stackings is find_stackings_result "
+               "and result.baseRiboseInteractions is find_pairs_result[2] and result.basePhosphateInteractions is find_pairs_result[1]",
+               "fresh(result.otherInteractions) and len(result.otherInteractions.items) == 0"]
+    ensures_labels = {0: "ghost-s", 1: "ghost-m", 2: "both-searches-run-on-the-given-structure-and-model",
+                      3: "pairs-stackings-ribose-phosphate-filed-under-their-own-fields", 4: "other-interactions-is-a-new-empty-list"}
+
+
+class extract_base_interactions_call(extract_base_interactions_c):
+    """call-site form: only the ghost names for the arguments (the remaining clauses speak about ghost names of its own callees)"""
+    ghost_exit = []
+    ensures = extract_base_interactions_c.ensures[:2]
+    ensures_labels = {}
 
 
 class extract_annotator:
     """annotator.extract_secondary_structure; ghost result M: the ONE mapping everything is read from"""
     params = {"tertiary_structure": "Structure3D", "model": "opt[int]", "find_gaps": "bool", "all_dot_brackets": "bool"}
+    callee_variants = {"extract_base_interactions": "call"}
     requires = []
     returns = "tuple[rec[Structure2D],list[str]]"
     ghost_returns = {"M": "Mapping2D3D"}
@@ -571,11 +616,323 @@ class extract_annotator:
     ensures_labels[2] = "structure2d-carries-extract_base_interactions-of-the-given-structure-and-model"
 
 
+# ------------------------------------------------------------------------------------------------ command-line glue: vocabulary
+@spec
+def out():
+    """what this call has printed so far (one entry per print call)"""
+    return ref(Stdout, 0).lines
+
+
+@spec
+def fs_paths():
+    """paths of the files this call has written (closed) so far, in order"""
+    return ref(Fs, 0).paths
+
+
+@spec
+def fs_texts():
+    return ref(Fs, 0).texts
+
+
+@spec
+def given(x):
+    """an Optional string option that is set and not empty (what `if args.x:` tests)"""
+    return not is_none(x) and not (x == '')
+
+
+@spec
+def b2i(c):
+    return ite(c, 1, 0)
+
+
+@spec
+def csv_of(S2):
+    return csv_text(S2.baseInteractions.basePairs.val, S2.baseInteractions.stackings.val, S2.baseInteractions.baseRiboseInteractions.val,
+                    S2.baseInteractions.basePhosphateInteractions.val, S2.baseInteractions.otherInteractions.val)
+
+
+@spec
+def json_of(S2):
+    return json_text(S2.baseInteractions.basePairs.val, S2.baseInteractions.stackings.val, S2.baseInteractions.baseRiboseInteractions.val,
+                     S2.baseInteractions.basePhosphateInteractions.val, S2.baseInteractions.otherInteractions.val,
+                     S2.bpseq, S2.dotBracket, S2.extendedDotBracket, S2.stems.val, S2.singleStrands.val, S2.hairpins.val, S2.loops.val,
+                     S2.interStemParameters.val)
+
+
+@spec
+def one_more_file(path, text):
+    """exactly one more written file, (path, text), after the ones written before"""
+    return (len(fs_paths()) == old(len(fs_paths())) + 1 and len(fs_texts()) == old(len(fs_texts())) + 1
+            and fs_paths()[old(len(fs_paths()))] == path and fs_texts()[old(len(fs_texts()))] == text
+            and forall(lambda j: implies(0 <= j and j < old(len(fs_paths())), fs_paths()[j] == old(fs_paths()[j])), pats=["fs_paths()[j]"])
+            and forall(lambda j: implies(0 <= j and j < old(len(fs_texts())), fs_texts()[j] == old(fs_texts()[j])), pats=["fs_texts()[j]"]))
+
+
+@spec
+def n_before_json(a):
+    return b2i(given(a.csv))
+
+
+@spec
+def n_before_bpseq(a):
+    return b2i(given(a.csv)) + b2i(given(a.json))
+
+
+@spec
+def n_before_pml(a):
+    return b2i(given(a.csv)) + b2i(given(a.json)) + b2i(given(a.bpseq))
+
+
+@spec
+def n_files(a):
+    return b2i(given(a.csv)) + b2i(given(a.json)) + b2i(given(a.bpseq)) + b2i(given(a.pml))
+
+
+@spec
+def namespace_is_cli(a):
+    """every attribute the output stage reads is the command line's value"""
+    return (a.all_dot_brackets == cli_all_dot_brackets() and a.extended == cli_extended()
+            and is_none(a.bpseq) == (not cli_has_bpseq()) and implies(cli_has_bpseq(), a.bpseq == cli_bpseq())
+            and is_none(a.csv) == (not cli_has_csv()) and implies(cli_has_csv(), a.csv == cli_csv())
+            and is_none(a.json) == (not cli_has_json()) and implies(cli_has_json(), a.json == cli_json())
+            and is_none(a.dot) == (not cli_has_dot()) and implies(cli_has_dot(), a.dot == cli_dot())
+            and is_none(a.pml) == (not cli_has_pml()) and implies(cli_has_pml(), a.pml == cli_pml())
+            and is_none(a.inter_stem_csv) == (not cli_has_inter_stem_csv()) and implies(cli_has_inter_stem_csv(), a.inter_stem_csv == cli_inter_stem_csv())
+            and is_none(a.stems_csv) == (not cli_has_stems_csv()) and implies(cli_has_stems_csv(), a.stems_csv == cli_stems_csv()))
+
+
+IO_ERRORS = ["OSError"] + LIB_ERRORS
+FS_FIELDS = ["Fs.paths", "Fs.texts"]
+NOTHING_YET = ["len(out()) == 0", "len(fs_paths()) == 0 and len(fs_texts()) == 0"]  # out() / fs_*() count from the start of the call
+
+
+# ------------------------------------------------------------------------------------------------ annotator: writers
+class write_bpseq_c:
+    nonnull_params = True  # (an Optional path must be shown not to be None at the call site)
+    """annotator.write_bpseq(path, <the BPSEQ text>) - the glue passes structure2d.bpseq, a str: str(bpseq) is that text"""
+    params = {"path": "str", "bpseq": "str"}
+    requires = []
+    raises = ["OSError"]
+    modifies = FS_FIELDS
+    ensures = ["one_more_file(path, bpseq)"]
+    ensures_labels = {0: "exactly-one-file-at-path-holding-the-given-text"}
+
+
+class write_json_c:
+    nonnull_params = True  # (an Optional path must be shown not to be None at the call site)
+    """annotator.write_json(path, structure2d): one file at `path` holding orjson.dumps(structure2d)"""
+    params = {"path": "str", "structure2d": "rec[Structure2D]"}
+    requires = []
+    raises = ["OSError"]
+    modifies = FS_FIELDS
+    ensures = ["one_more_file(path, json_of(structure2d))"]
+    ensures_labels = {0: "exactly-one-file-at-path-holding-the-json-of-the-given-structure2d"}
+
+
+class write_csv_c:
+    nonnull_params = True  # (an Optional path must be shown not to be None at the call site)
+    """ASSUMED: annotator.write_csv(path, structure2d): one file at `path` whose text is a function of the five interaction lists"""
+    params = {"path": "str", "structure2d": "rec[Structure2D]"}
+    requires = []
+    raises = IO_ERRORS + ["AttributeError"]
+    modifies = FS_FIELDS
+    ensures = ["one_more_file(path, csv_of(structure2d))"]
+
+
+class generate_pymol_script_c:
+    """ASSUMED: annotator.generate_pymol_script(mapping, stems) -> a text, function of the mapping (object, fields) and the stems list"""
+    params = {"mapping": "Mapping2D3D", "stems": "ElemList"}
+    requires = []
+    returns = "str"
+    raises = LIB_ERRORS
+    modifies = []
+    ensures = ["result == pml_text(mapping, mapping.structure3d, mapping.base_pairs2d, mapping.stackings2d, mapping.find_gaps, stems.val)"]
+
+
+class bp_from_string_c:
+    """ASSUMED: BpSeq.from_string(text) -> an object holding bp_from_string(text)"""
+    params = {"bpseq_str": "str"}
+    requires = []
+    returns = "BpSeq"
+    raises = LIB_ERRORS
+    modifies = []
+    ensures = ["result.val == bp_from_string(bpseq_str)"]
+
+
+class bp_graphviz_c:
+    """ASSUMED: the cached property b.graphviz -> a text, function of b.val"""
+    is_property = True
+    params = {"self": "BpSeq"}
+    requires = []
+    returns = "str"
+    raises = LIB_ERRORS + ["OSError"]
+    modifies = []
+    ensures = ["result == gv_text(self.val)"]
+
+
+# ------------------------------------------------------------------------------------------------ annotator: handle_output_arguments
+HOA_PARAMS = {"args": "Namespace", "structure2d": "rec[Structure2D]", "dot_brackets": "list[str]", "mapping": "Mapping2D3D", "input_filename": "str"}
+
+
+class hoa_prefix:
+    """annotator.handle_output_arguments up to (not including) `if args.inter_stem_csv:` - everything it prints and the files it
+    writes through the library's own writers.  The rest of the body (two pandas DataFrame.to_csv exports, logging) contains no
+    print and is NOT under contract."""
+    params = HOA_PARAMS
+    requires = NOTHING_YET
+    stop_before = "if args.inter_stem_csv"
+    raises = IO_ERRORS + ["AttributeError"]
+    modifies = ["Stdout.lines"] + FS_FIELDS
+    ensures = []
+    max_paths = 512
+    stop_ensures = [
+        "implies(args.extended, len(out()) == 1 + b2i(given(args.dot)) and out()[0] == structure2d.extendedDotBracket)",
+        "implies(not args.extended and args.all_dot_brackets, len(out()) == len(dot_brackets) + b2i(given(args.dot)) "
+        "and forall(lambda j: implies(0 <= j and j < len(dot_brackets), out()[j] == dot_brackets[j])))",
+        "implies(not args.extended and not args.all_dot_brackets, len(out()) == 1 + b2i(given(args.dot)) and out()[0] == structure2d.dotBracket)",
+        "implies(given(args.dot), out()[len(out()) - 1] == gv_text(bp_from_string(structure2d.bpseq)))",
+        "len(fs_paths()) == n_files(args) and len(fs_texts()) == n_files(args)",
+        "implies(given(args.csv), fs_paths()[0] == args.csv and fs_texts()[0] == csv_of(structure2d))",
+        "implies(given(args.json), fs_paths()[n_before_json(args)] == args.json and fs_texts()[n_before_json(args)] == json_of(structure2d))",
+        "implies(given(args.bpseq), fs_paths()[n_before_bpseq(args)] == args.bpseq and fs_texts()[n_before_bpseq(args)] == structure2d.bpseq)",
+        "implies(given(args.pml), fs_paths()[n_before_pml(args)] == args.pml and fs_texts()[n_before_pml(args)] == "
+        "pml_text(mapping, mapping.structure3d, mapping.base_pairs2d, mapping.stackings2d, mapping.find_gaps, structure2d.stems.val))",
+    ]
+    stop_ensures_labels = {0: "-e:prints-exactly-the-extended-text", 1: "-a:prints-exactly-the-given-dot_brackets-one-per-print-in-order",
+                           2: "neither:prints-exactly-structure2d.dotBracket", 3: "-d:then-the-graphviz-text-of-the-bpseq-text",
+                           4: "files-written:one-per-given-option-csv-json-bpseq-pml", 5: "csv-file-from-structure2d",
+                           6: "json-file-from-structure2d", 7: "bpseq-file-holds-structure2d.bpseq", 8: "pml-file-from-mapping-and-stems"}
+    loops = {0: {"index": "n", "writes": ["Stdout.lines"], "inv": [
+        "len(out()) == n",
+        "forall(lambda j: implies(0 <= j and j < n, out()[j] == dot_brackets[j]), pats=['out()[j]'])",
+    ], "labels": {0: "one-line-per-dot-bracket-so-far", 1: "line-j-is-dot_brackets[j]"}}}
+
+
+class hoa_call:
+    """ASSUMED (call sites only): handle_output_arguments may print and write files and raise; ghost results = its arguments.  Its
+    requires are the prefix contract's (the callers prove them)."""
+    params = HOA_PARAMS
+    requires = NOTHING_YET
+    ghost_returns = {"a": "Namespace", "s2": "rec[Structure2D]", "dbs": "list[str]", "m": "Mapping2D3D", "fn": "str"}
+    raises = IO_ERRORS + ["AttributeError", "TypeError"]
+    modifies = ["Stdout.lines"] + FS_FIELDS
+    ensures = ["a is args", "s2 == structure2d", "dbs == dot_brackets", "m is mapping", "fn == input_filename"]
+
+
+# ------------------------------------------------------------------------------------------------ mains
+class add_common_c:
+    """annotator.add_common_output_arguments(parser): registers the two flags and the seven options, nothing else"""
+    params = {"parser": "Parser"}
+    requires = []
+    raises = []
+    modifies = ["Parser.flags@parser", "Parser.optionals@parser"]  # (of this parser object only)
+    ensures = [
+        "forall(lambda k: (k in parser.flags) == (old(k in parser.flags) or k == 'all_dot_brackets' or k == 'extended'), sorts={'k': 'str'})",
+        "forall(lambda k: (k in parser.optionals) == (old(k in parser.optionals) or k == 'bpseq' or k == 'csv' or k == 'json' or k == 'dot' "
+        "or k == 'pml' or k == 'inter_stem_csv' or k == 'stems_csv'), sorts={'k': 'str'})",
+    ]
+    ensures_labels = {0: "flags:all_dot_brackets,extended", 1: "options:bpseq,csv,json,dot,pml,inter_stem_csv,stems_csv"}
+
+
+class handle_input_file_c:
+    """ASSUMED: util.handle_input_file(path) -> a readable file object over the content of the file at `path` (ghost src = path)"""
+    params = {"path": "str"}
+    requires = []
+    returns = "InFile"
+    raises = IO_ERRORS
+    modifies = []
+    ensures = ["result.src == path"]
+
+
+class read_3d_structure_c:
+    """ASSUMED: parser.read_3d_structure(file, None) -> the structure read from that file (all models)"""
+    params = {"cif_or_pdb": "InFile", "model": "opt[int]"}
+    defaults = {"model": None}
+    requires = ["is_none(model)"]
+    returns = "Structure3D"
+    raises = IO_ERRORS
+    modifies = []
+    ensures = ["result.val == s3d_read(cif_or_pdb.src)"]
+
+
+class process_external_main(process_external):
+    """process_external_tool_output as proved above, plus ghost names for its arguments (trivially satisfiable additions)"""
+    ghost_returns = {"s": "Structure3D", "p": "str", "t": "enum[ExternalTool]", "md": "opt[int]", "fg": "bool", "adb": "bool"}
+    ensures = process_external.ensures + ["s is structure3d", "p == external_file_path", "t == tool", "md == model", "fg == find_gaps",
+                                          "adb == all_dot_brackets"]
+
+
+class extract_annotator_main(extract_annotator):
+    """extract_secondary_structure as annotator.main needs it: only ghost names for its arguments (trivially satisfiable; implied by
+    any contract).  The ghost mapping M of the proved contract is NOT exported: the engine assumes a ghost result that is a
+    reference to be an object allocated before the call, which a mapping built inside the call is not."""
+    ghost_returns = {"s": "Structure3D", "md": "opt[int]", "fg": "bool", "adb": "bool"}
+    ghost_entry = []
+    ghost_exit = []
+    ensures = ["s is tertiary_structure", "md == model", "fg == find_gaps", "adb == all_dot_brackets"]
+    ensures_labels = {}
+
+
+MAIN_LABELS = {0: "structure-is-read-from-the-input-file-all-models",
+               1: "library-called-with-that-structure-model-None-and-the-command-lines-flags",
+               2: "output-stage-gets-exactly-the-librarys-structure2d-and-dot_brackets-and-the-input-name",
+               3: "output-stage-gets-the-parsed-command-line",
+               4: "output-stage-mapping"}
+
+
+class main_adapter:
+    """adapter.main: argparse glue around process_external_tool_output and handle_output_arguments"""
+    params = {}
+    callee_variants = {"process_external_tool_output": "main"}
+    requires = NOTHING_YET
+    raises = ["SystemExit"] + IO_ERRORS + ["AttributeError", "TypeError"]
+    modifies = ["Stdout.lines"] + FS_FIELDS
+    ensures = [
+        "process_external_tool_output_s.val == s3d_read(cli_input())",
+        "process_external_tool_output_p == cli_external() and implies(cli_tool() == 'fr3d', process_external_tool_output_t == FR3D) "
+        "and implies(cli_tool() == 'dssr', process_external_tool_output_t == DSSR) and is_none(process_external_tool_output_md) "
+        "and process_external_tool_output_fg == cli_find_gaps() and process_external_tool_output_adb == cli_all_dot_brackets()",
+        "handle_output_arguments_s2 == process_external_tool_output_result[0] and handle_output_arguments_dbs == process_external_tool_output_result[1] "
+        "and handle_output_arguments_fn == cli_input()",
+        "namespace_is_cli(handle_output_arguments_a)",
+        "handle_output_arguments_m is process_external_tool_output_result[2]",
+    ]
+    ensures_labels = MAIN_LABELS
+
+
+class main_annotator:
+    """annotator.main: argparse glue around extract_secondary_structure and handle_output_arguments"""
+    params = {}
+    callee_variants = {"extract_secondary_structure": "main"}
+    requires = NOTHING_YET
+    raises = ["SystemExit"] + IO_ERRORS + ["AttributeError", "TypeError"]
+    modifies = ["Stdout.lines"] + FS_FIELDS
+    ensures = [
+        "extract_secondary_structure_s.val == s3d_read(cli_input())",
+        "is_none(extract_secondary_structure_md) and extract_secondary_structure_fg == cli_find_gaps() "
+        "and extract_secondary_structure_adb == cli_all_dot_brackets()",
+        "handle_output_arguments_s2 == extract_secondary_structure_result[0] and handle_output_arguments_dbs == extract_secondary_structure_result[1] "
+        "and handle_output_arguments_fn == cli_input()",
+        "namespace_is_cli(handle_output_arguments_a)",
+        "fresh(handle_output_arguments_m) and built_from(handle_output_arguments_m, extract_secondary_structure_s, "
+        "handle_output_arguments_s2.baseInteractions, cli_find_gaps())",
+    ]
+    ensures_labels = MAIN_LABELS
+
+
 CONTRACTS = {
     "Mapping2D3D.bpseq": m_bpseq_c, "Mapping2D3D.dot_bracket": m_dot_bracket_c, "Mapping2D3D.extended_dot_bracket": m_extended_c,
     "Mapping2D3D.all_dot_brackets": m_all_c, "BpSeq.elements": bp_elements_c, "BpSeq.all_dot_brackets": bp_all_c,
     "extract_secondary_structure_from_external": extract_external,
     "parse_fr3d_output": parse_fr3d_c, "parse_dssr_output": parse_dssr_c, "parse_external_output": parse_external_c,
     "process_external_tool_output": process_external,
-    "extract_base_interactions": extract_base_interactions_c, "extract_secondary_structure": extract_annotator,
+    "find_pairs": find_pairs_c, "find_stackings": find_stackings_c,
+    "extract_base_interactions": extract_base_interactions_c, "extract_base_interactions@call": extract_base_interactions_call,
+    "extract_secondary_structure": extract_annotator,
+    "write_bpseq": write_bpseq_c, "write_json": write_json_c, "write_csv": write_csv_c, "generate_pymol_script": generate_pymol_script_c,
+    "BpSeq.from_string": bp_from_string_c, "BpSeq.graphviz": bp_graphviz_c,
+    "handle_output_arguments": hoa_call, "handle_output_arguments@prefix": hoa_prefix,
+    "add_common_output_arguments": add_common_c, "handle_input_file": handle_input_file_c, "read_3d_structure": read_3d_structure_c,
+    "process_external_tool_output@main": process_external_main, "extract_secondary_structure@main": extract_annotator_main,
+    "main@adapter": main_adapter, "main@annotator": main_annotator,
 }
